@@ -356,6 +356,9 @@ func c14DepthBucket(prefix string, n int) string {
 var c14AllDepths = c14Depths(1 << 17)
 
 func c14Summarise(job c14Job, modelOK bool) gSummary {
+	if job.Fail != nil {
+		return c14fSummarise(*job.Fail)
+	}
 	var s gSummary
 	cs := job.gCase
 	deep := job.Gen != nil
@@ -482,6 +485,7 @@ func checkC14(c *lib.Ctx) {
 		"Deep pipelines (generated, not written out): n READ/WRITE requests of 1…8 bytes between two CLOSEs for n = 0…20 and 2^k-1, 2^k, 2^k+1 (k = 5…10 quick, 5…16 thorough) and 767…769, 1535…1537, 3071…3073; one handle, or 2…4 handles closed one after the other with the boundary value as the count since the previous CLOSE or as the running total; gated: only the calls of the last 1…8 requests before each CLOSE are held (all earlier ones return on their own), grace period and chosen return order as above; unforced: sleep / free. Deep pipelines with an FSTAT / FSETSTAT behind every 1st, 2nd, 3rd, 5th or 17th READ/WRITE (10 quick / 150 thorough per server). " +
 		"Server options: every case runs on a server started with one of the 24 (os-backed: ReadOnly x WithAllocator x WithMaxTxPacket absent/32768/65536 x WithServerWorkingDirectory, handles then opened by relative names) resp. 12 (request server: WithRSAllocator x WithRSMaxTxPacket x WithStartDirectory) option combinations, dealt from a shuffled deck per family so that every family of cases meets every combination (read-only servers: read-only opens only); the depths 256 and 512 (thorough: 255, 256, 257, 512 and 65536) are run gated under every combination. Schedules of pipelines of up to 300 requests are also replayed in the Lean pipeline model. " +
 		"END OF STREAM as an event of the schedule: the client pipelines transfers and CLOSEs and ends its request stream (half-close) without waiting for a reply — gated: small pipelines (1…3 handles, up to 12, or 30…49, transfers and handle commands, every call held) and deep ones (last 1…8 calls before each CLOSE held), the input is closed as soon as the whole stream has been taken in (calls held, CLOSEs waiting behind them) or after a PRNG number of gates has been opened, a grace period of 25 ms follows (7 s, thorough 7/35/70 s, in one case per server) during which no Close may be entered, then the calls return in the chosen order; unforced: input closed right after the last byte (quick per server: 90 + 16 + 120 cases); every oracle applies as in any other case, and Serve must return. " +
+		"FAILING handler calls (c14_fail.go): d = 1…24, 30, 37, 49 (unforced: 1…40) READ/WRITE requests on 1…3 handles, each handle closed behind them (CLOSEs at the end, or each right behind the last request of its handle) or — one handle in six — left to the sweep at the end of the session; a chosen subset of the ReadAt/WriteAt calls (none, one, about 8 %, 25 %, 50 %, all) returns an error — EOF, ENOSPC in a PathError, EDQUOT, EIO after half the bytes, io.ErrShortWrite, io.ErrUnexpectedEOF, os.ErrNotExist / ErrPermission / ErrClosed, the package's ErrSSHFxFailure / OpUnsupported / EOF, an error type of the handler's own, a wrapped error — or a short count without error; one request in twelve is of the kind its handle does not take (request server: refused by the server without a call; os-backed server: passed to the file, the kernel answers EBADF), one read in ten lies behind the end of the object. Request server: handles of the methods Get, Put, Open, and Put for a read-write OPEN when FilePut lacks OpenFile; handler objects with and without io.Closer and TransferError (four shapes). os-backed server: the opened file is wrapped, calls told to fail do not reach it. Every server option combination but ReadOnly, dealt from a deck. Gated: every call is held, the calls return in a chosen order (uniform, fifo, lifo, earliest-held-longest, calls that fail first — the others are then still on their gates —, calls that fail last); after the first step, after each of the first calls that fail and after the end of the input a grace period of 10 ms in which no Close may be entered; one case in four ends the request stream once it is taken in (or after a PRNG number of gates). When the calls that the pipeline must start next do not reach their gates within 0.9 s the forced schedule is given up (no verdict), every gate is opened and the case is judged on its log like the unforced ones (nothing held; calls that fail return within 0.2 ms, the others sleep up to 3 ms, or nothing sleeps). Oracles: every request that fits its handle is handed to the handler exactly once (a request that precedes the CLOSE and is answered without a call is a failure, whatever the reply says); Close of an object is entered exactly once — by its CLOSE, or by the sweep after the last reply for a handle the stream does not close —, never while calls of earlier requests on the handle are held, in flight, or yet to start; replies in order, each following the result of the call of its own request (DATA / status, code and message of the error returned), WriteAt is given the bytes of its request, os-backed: final file contents. These cases are not replayed in the Lean model. " +
 		"Oracles on the global start/finish log: no Close entered while calls of earlier requests are held, 0 earlier reads/writes in flight at every Close entry, none starts later, between the set-up and the last reply the Close of an object is entered exactly as often as the stream holds CLOSE requests for it (no other request closes it), no call on an object of the request server finds the context of its OPEN request cancelled (handler objects record Request.Context() at open time), every request succeeds, final contents, the observed completion order is one the pipeline allows. non-trivial = at least one read/write precedes a CLOSE; distinct by (server, options, program or generator, order or sleep seed)"
 	thorough := c.Tier == "thorough"
 	c02Cfg = gCurCfg(c, "pipe", c02Cfg)
@@ -492,6 +496,9 @@ func checkC14(c *lib.Ctx) {
 	describe := func(raw json.RawMessage) (string, any) {
 		var job c14Job
 		json.Unmarshal(raw, &job)
+		if job.Fail != nil {
+			return job.Fail.Server, job.input()
+		}
 		if job.Gen != nil {
 			return job.Gen.Server, job.input()
 		}
@@ -520,6 +527,18 @@ func checkC14(c *lib.Ctx) {
 		// while is seen only when the transfers in front of a CLOSE take longer than that. These cases go first, so
 		// that they run side by side with the rest of the batch (the wall cost of the family is that of its longest hold).
 		jobs = append(jobs, c14LongHoldJobs(c.Rand, thorough, grace)...)
+		// handler calls that FAIL while the others are held (c14_fail.go); drawn from a PRNG of their own, so that the
+		// cases of the other families of a seed stay what they were
+		frng := rand.New(rand.NewSource(c.Seed*7919 + 14))
+		sampled := 0
+		for _, fc := range c14fJobs(frng, thorough, 10) {
+			fc := fc
+			jobs = append(jobs, gJSON(c14Job{Fail: &fc}))
+			if nf := strings.Count(fc.failText(), "→"); sampled < 2 && fc.Mode == "gated" && nf >= 1 && nf <= 3 && len(fc.Ops) >= 6 && len(fc.Ops) <= 11 {
+				sampled++
+				r.Sample(map[string]any{"pipeline_with_failing_handler_calls": fc.text()})
+			}
+		}
 		for _, server := range []string{"rs", "os"} {
 			// every (h, d)
 			deck := newC14Deck(c.Rand)
